@@ -16,6 +16,7 @@ let rec e = function
   | Lst [A "call"; f; A sg; Lst a] -> ECall (e f, sg = "1", L.map e a) | Lst [A "method"; o; A m; A sg; Lst a] -> EMethod (e o, unhex m, sg = "1", L.map e a)
   | Lst [A "un"; A u; x] -> EUn (uop u, e x) | Lst [A "bin"; A b; l; r] -> EBin (bop b, e l, e r) | Lst [A "paren"; x] -> EParen (e x)
   | Lst [A "table"; Lst fs] -> ETable (L.map e fs) | Lst [A "tableml"; Lst fs] -> ETableML (L.map e fs)
+  | Lst [A "fline"; A b; f; Lst t] -> FLine (b = "1", e f, (match t with [A h] -> Some (unhex h) | _ -> None)) | Lst [A "fcom"; A b; A h] -> FCom (b = "1", unhex h)
   | Lst [A "fpos"; x] -> FPos (e x) | Lst [A "fnamed"; A n; x] -> FNamed (unhex n, e x) | Lst [A "fkey"; k; x] -> FKey (e k, e x)
   | _ -> failwith "exp"
 let names = function Lst l -> L.map (function A h -> unhex h | _ -> failwith "name") l | _ -> failwith "names"
